@@ -22,6 +22,8 @@ Clauses of the statement -> subchecks
     C05.dense.out_of_bounds  dense get/set at -1, n, n+1 raise OutOfBoundsError and change nothing
     C05.growth               append / += list / += container / += self do not raise
     C05.growth_aligned       afterwards len(container) == dense n_elem == dense rows; old entries unchanged
+    C05.operand_unchanged    the container handed to += stays a value of its own: later growth of the receiver (or of the
+                             operand) never changes the other one; its own dense attribute stays aligned
     C05.clear                attr.clear() -> every index reads the default
     C05.as_array             array export equals the model, same shape for sparse and dense
     C05.recreate             delete_attribute + create_attribute after growth gives an aligned all-default attribute
@@ -47,7 +49,8 @@ from mc.canon import canon
 ID = "C05"
 TECHNIQUE = "explicit-state BFS over call histories of the real container+attributes vs reference lists"
 RULE = ("explicit-state BFS over all histories (set valid / set invalid / set numpy-typed / set out-of-range / get / "
-        "in-place update / read-then-mutate / copy entry / append / += list / += container / += self / clear / "
+        "in-place update / read-then-mutate / copy entry / append / += list / += container / += self / += a kept second "
+        "container / append to that second container / clear / "
         "as_array / delete_attribute / create_attribute) up to the depth bound, from container sizes 0 and 2, for "
         "the five value types x arity {1,2} x default {implicit,custom} x {DataContainer, CornerDataContainer}; one "
         "sparse and one dense attribute with identical parameters live in the same container and are compared "
@@ -83,7 +86,8 @@ ASSUMPTIONS = [
 ]
 BOUNDS = {
     "quick": "80 configurations (2 containers x 5 types x arity 1,2 x implicit/custom default x size 0,2): all histories "
-             "of <= 3 events, <= 4 events for DataContainer of size 2; 2 long-string configurations <= 3 events; "
+             "of <= 3 events, <= 4 events for DataContainer of size 2; 2 long-string configurations <= 3 events; 4 extreme-value "
+             "configurations (int 2^31 and 2^53+1, float 5e-324 and the largest double; arity 1,2) <= 3 events; "
              "container growth capped at n0+2; call forms: 5 types x 7 entry points x container sizes 0,3 x every "
              "assignment x every form (3561 calls); numpy integer indices of 4 types x 5 types x 2 storages x arity 1,2",
     "thorough": "the same 80 configurations: all histories of <= 5 events, growth capped at n0+3; 20 configurations "
@@ -98,6 +102,9 @@ CUSTOM = {"bool": True, "int": 7, "float": 2.5, "complex": 1 + 1j, "str": "z"}
 DELTA = {"bool": True, "int": 1, "float": 0.5, "complex": 1j, "str": "x"}
 EXACT = {"bool": [True, False], "int": [3, 1], "float": [1.5, 0.5], "complex": [2j, 1j], "str": ["a", "x"]}
 CHAIN = ["bool", "int", "float"]          # widening order; complex and str are isolated
+# values at the ends of the ranges the storages promise (int: beyond 32 bits and beyond the 53-bit mantissa of a double;
+# float: smallest subnormal and largest finite double); every one of them is exactly representable in the dense cell type
+EXTREME = {"int": [2 ** 31, 2 ** 53 + 1], "float": [5e-324, 1.7976931348623157e308]}
 LONG = "L" * 33                            # one character more than the dense '<U32' cell
 
 
@@ -123,6 +130,8 @@ def alphabet(T, k, variant, menu):
     e1, e2 = EXACT[T]
     if variant == "long":
         e2 = LONG
+    if variant == "extreme":
+        e1, e2 = EXTREME[T]
     npt = {"bool": np.bool_, "int": np.int64, "float": np.float64, "complex": np.complex128, "str": np.str_}[T]
     acc, rej, agr = [], [], []
     nar = narrower_types(T)
@@ -183,6 +192,10 @@ def tasks(tier):
     for k in (1, 2):
         out.append({"container": "DataContainer", "type": "str", "arity": k, "default": "implicit", "n0": 2,
                     "depth": {"quick": 3, "thorough": 4}[tier], "nmax": 2 + grow, "variant": "long", "menu": "full"})
+    for T in sorted(EXTREME):
+        for k in (1, 2):
+            out.append({"container": "DataContainer", "type": T, "arity": k, "default": "implicit", "n0": 2,
+                        "depth": {"quick": 3, "thorough": 4}[tier], "nmax": 2 + grow, "variant": "extreme", "menu": "full"})
     if tier == "thorough":
         for T in TYPES:
             for k in (1, 2):
@@ -270,6 +283,12 @@ class St:
         else:
             self.c = DataContainer([self._elem() for _ in range(n0)], id="elems")
         self.n = n0
+        # a second container of the same class that stays alive over the whole history: handed to `+=` as the operand and
+        # grown on its own; it carries a dense attribute of its own, so its alignment is observable
+        C = type(self.c)
+        self.op = C([self._elem()], [7], id="operand") if self.corner else C([self._elem()], id="operand")
+        self.op_n = 1
+        self.op.create_attribute("op_dense", float, 1, dense=True)
         self.alive = {"s": True, "d": True}
         self.has_attr = False
         self.m = {"s": None, "d": None}
@@ -323,7 +342,7 @@ def state_key(st: St):
         sparse_types = tuple(sorted((i, type(v).__name__) for i, v in dd.items()))
     # the Type enum member of each attribute is fixed at creation: dumped by name instead of member-by-member
     tnames = tuple(sorted((nm, a.type.name) for nm, a in st.c._attr.items()))
-    return ((canon(st.c, skip_attrs=("type",)), tnames, st.n, st.has_attr, st.alive["s"], st.alive["d"],
+    return ((canon((st.c, st.op), skip_attrs=("type",)), st.op_n, tnames, st.n, st.has_attr, st.alive["s"], st.alive["d"],
                 None if st.m["s"] is None else tuple(map(repr, st.m["s"])),
                 None if st.m["d"] is None else tuple(map(repr, st.m["d"])),
                 None if st.w["s"] is None else tuple(st.w["s"]),
@@ -408,6 +427,10 @@ class Run:
             evs.append(("iadd_container", 0))
         if 1 <= n <= room:
             evs.append(("iadd_self",))
+        if room >= st.op_n and not reduced:
+            evs.append(("iadd_operand",))
+        if st.op_n < 2 and not reduced:
+            evs.append(("append_operand",))
         return evs
 
     def apply(self, st: St, ev, check):
@@ -605,9 +628,21 @@ class Run:
                 killed.add(X)
             st.create(on_fail if check else None)
 
-        elif kind in ("append", "extend", "iadd_container", "iadd_self"):
+        elif kind == "append_operand":
+            o = call(st.op.append, st._elem(), 7) if st.corner else call(st.op.append, st._elem())
+            if o.ok:
+                st.op_n += 1
+            else:
+                bad("c", "C05.growth", type(st.op).__name__ + ".append", "raises:" + o.exc, "operand=one_element:kept_operand", {"msg": o.msg})
+                st.op_n = len(st.op)
+
+        elif kind in ("append", "extend", "iadd_container", "iadd_self", "iadd_operand"):
             C = type(st.c)
-            if kind == "append":
+            if kind == "iadd_operand":
+                m = st.op_n
+                o = call(operator.iadd, st.c, st.op)
+                operand, callee = "kept_container", C.__name__ + ".__iadd__"
+            elif kind == "append":
                 m = 1
                 o = call(st.c.append, st._elem(), 7) if st.corner else call(st.c.append, st._elem())
                 operand, callee = "one_element", C.__name__ + ".append"
@@ -700,9 +735,20 @@ class Run:
         if not lc.ok or lc.value != n or c.size != n:
             bad("c", "C05.growth_aligned", type(c).__name__ + ".__len__", "mismatch:len", "after:" + evk,
                 {"got": repr(lc), "want": n})
+        # the container that was (or will be) the operand of += is a value of its own: no event on the receiver changes it,
+        # and its own growth keeps its attribute aligned
+        op = copy.deepcopy(st.op)
+        oa = op.get_attribute("op_dense")
+        reads = [call(oa.__getitem__, i) for i in range(st.op_n)]
+        if len(op) != st.op_n or op.size != st.op_n or oa.n_elem != st.op_n or tuple(oa._data.shape) != (st.op_n, 1) \
+                or not all(o.ok for o in reads):
+            bad("c", "C05.operand_unchanged", type(op).__name__ + (".append" if evk == "append_operand" else ".__iadd__"),
+                "side_effect:operand_container_changed", "after:" + evk,
+                {"len_operand": len(op), "want": st.op_n, "dense_n_elem": oa.n_elem, "rows": list(oa._data.shape),
+                 "reads": [("ok" if o.ok else o.exc) for o in reads]})
         if not st.has_attr:
             return killed
-        growth = evk in ("append", "extend", "iadd_container", "iadd_self")
+        growth = evk in ("append", "extend", "iadd_container", "iadd_self", "iadd_operand")
         for X in st.live():
             a = c.get_attribute(NAMES[X])
             nb = last["n_before"]
@@ -765,7 +811,7 @@ class Run:
                 if a.n_elem != n or len(a) != n or tuple(rows) != (n, k):
                     cname = type(c).__name__
                     callee = {"append": cname + ".append", "extend": cname + ".__iadd__", "iadd_container": cname + ".__iadd__",
-                              "iadd_self": cname + ".__iadd__", "create": cname + ".create_attribute",
+                              "iadd_self": cname + ".__iadd__", "iadd_operand": cname + ".__iadd__", "create": cname + ".create_attribute",
                               "init": cname + ".create_attribute"}.get(evk, "ArrayAttribute." + evk)
                     bad(X, "C05.growth_aligned", callee, "mismatch:n_elem", "after:" + evk,
                         {"n_elem": a.n_elem, "rows": list(rows), "len_container": n})
@@ -1532,7 +1578,7 @@ def finish(tier, rep: Report):
         if f not in rep.flags:
             fails.append("coverage flag missing: " + f)
     for kind in ("set", "set_bad", "set_agree", "set_oob", "get", "rmw", "read_mutate", "copy", "clear", "as_array",
-                 "delete", "create", "append", "extend", "iadd_container", "iadd_self"):
+                 "delete", "create", "append", "extend", "iadd_container", "iadd_self", "iadd_operand", "append_operand"):
         if "event:" + kind not in rep.flags:
             fails.append("event kind never executed: " + kind)
     for kind in ("set_bad", "rmw", "get_oob", "set_oob", "get"):
